@@ -1,11 +1,17 @@
 #!/bin/sh
-# the repository's own test suite on a build WITHOUT the hook guard (plain cmake build as in BASELINE.json)
-set -e
+# the repository's own test suite on a build WITHOUT the hook guard (plain cmake build as in BASELINE.json).
+# ctest only sees the exit status of the 23 test programs; the CUnit summaries they print are checked too: no test and no
+# assertion of any suite may have failed.
 B=/tmp/iowow_baseline_off_$$
 rm -rf "$B"
-cmake -G Ninja -S /repo -B "$B" -DBUILD_TESTS=ON -DCMAKE_BUILD_TYPE=RelWithDebInfo -DCMAKE_C_FLAGS=-Wno-error >/dev/null
-cmake --build "$B" >/dev/null
-ctest --test-dir "$B" -j8 --timeout 900
+trap 'rm -rf "$B"' EXIT
+cmake -G Ninja -S /repo -B "$B" -DBUILD_TESTS=ON -DCMAKE_BUILD_TYPE=RelWithDebInfo -DCMAKE_C_FLAGS=-Wno-error >/dev/null || exit 2
+cmake --build "$B" >/dev/null || exit 2
+ctest --test-dir "$B" -j8 --timeout 900 -V > "$B/out.txt" 2>&1
 rc=$?
-rm -rf "$B"
+grep -E "Test +#|tests passed|tests failed" "$B/out.txt"
+bad=$(grep -E "^[0-9]+: +(suites|tests|asserts) " "$B/out.txt" | awk '$6 != "0" && $6 != "n/a"' | wc -l)
+run=$(grep -E "^[0-9]+: +tests " "$B/out.txt" | awk '{s += $3} END {print s + 0}')
+echo "CUnit: $run tests run, $bad summary lines with failures"
+[ "$bad" = "0" ] || rc=1
 exit $rc
